@@ -83,6 +83,22 @@ def codecReadFrame (maxSize : Option Nat) (unmask acceptUnmasked : Bool) : M (Op
 /-- `stream.flush()` -/
 def streamFlush : M Unit := fun w => w.streamFlush
 
+/-- `set_func(&mut self.config)`: the caller's closure edits the stored configuration -/
+def applyCfg (f : Config → Config) : M Unit :=
+  modifyW fun w => { w with c := { w.c with cfg := f w.c.cfg } }
+
+/-- `self.config.assert_valid()` (the condition is generated from the source: `configValid`) -/
+def assertValidCfg : M Unit := fun w =>
+  if configValid w.c.cfg.maxw w.c.cfg.wbuf then (w, .ok ()) else (w, .panic .configInvalid)
+
+/-- `self.frame.set_max_out_buffer_len(n)` -/
+def codecSetMaxOut (n : Nat) : M Unit :=
+  modifyW fun w => { w with c := { w.c with codec := { w.c.codec with maxOut := n } } }
+
+/-- `self.frame.set_out_buffer_write_len(n)` -/
+def codecSetWriteLen (n : Nat) : M Unit :=
+  modifyW fun w => { w with c := { w.c with codec := { w.c.codec with writeLen := n } } }
+
 /-- `IncompleteMessageType` -/
 inductive IncompleteType where
   | text | binary
